@@ -7,15 +7,17 @@ CHECKS = {
     "C01": dict(
         technique="TLA+ spec Fanout (Group fan-out of one stream: GOP caches with cap, merge writer, fresh / wait-key flags, FLV "
                   "record; TLC exhaustive + simulation) + replay of every edge / simulated behaviour into a real logic.Group "
-                  "with RTMP, HTTP-FLV, WebSocket-FLV consumers on in-memory connections + TLC trace validation",
+                  "with RTMP, HTTP-FLV, WebSocket-FLV consumers on in-memory connections and relay-push targets on loopback TCP + TLC "
+                  "trace validation",
         text="TLC checks Contiguous / MetaForm / no-duplicate / record-complete invariants over every interleaving of publisher "
              "arrival and departure, publishes of every message type and size class, joins and leaves for gop_num 0 / 1 / 2, "
              "GOP caps, merge-writer budgets and recording; behaviours are replayed into a real Group, the bytes each "
              "consumer received are projected by independent chunk / FLV readers to message ids (position-coded "
              "payloads) and the delivered sequence after every step is decided by TLC.",
-        note="One stream, up to three consumers; RTMP, HTTP-FLV, WS-FLV consumers and the FLV record (the TS / RTSP / HLS outputs "
-             "are decided by C06 / C10). Relay-push prologue is not part of the fan-out model. Quick replays every edge of "
-             "the smallest configuration and simulated behaviours of the others.",
+        note="One stream, up to three consumers; RTMP, HTTP-FLV, WS-FLV consumers, relay-push targets (gated stub targets on "
+             "loopback TCP running a real rtmp.ServerSession; metadata must carry @setDataFrame) and the FLV record (the TS / "
+             "RTSP / HLS outputs are decided by C06 / C10). Quick replays every edge of the smallest configurations and "
+             "simulated behaviours of the others.",
         ref="6/C01"),
     "C02": dict(
         technique="TLA+ spec Fanout (join prologue: metadata, sequence headers in force, cached GOPs, wait-for-key gating, "
@@ -79,7 +81,7 @@ CHECKS = {
         ref="6/C19"),
     "C13": dict(
         technique="explicit TLA+ protocol machines per surface (spec/Surfaces.tla: RTP/RTCP on an RTSP publish session, "
-                  "GB28181 PS over RTP, RTSP requests, SDP fields, WebSocket frames; TLC enumeration of classed element "
+                  "GB28181 PS over RTP and RTP sequencing, UDP transport, RTSP requests, SDP fields, WebSocket frames, HTTP requests, lal as RTMP / RTSP / HTTP-FLV client; TLC enumeration of classed element "
                   "sequences) + execution of each sequence against the real lal objects in child processes + TLC trace "
                   "validation (spec/Trace_Surfaces.tla)",
         text="TLC enumerates every order of core protocol elements to depth 2-4 followed by any pooled element (each field at "
@@ -87,12 +89,19 @@ CHECKS = {
              "expectation is total and never admits a crash; the sequences are executed against a real ServerManager / "
              "rtsp.ServerCommandSession / gb28181.PsUnpacker in child processes; a process death, a recovered panic, an "
              "unserved second session or a disturbed bystander publisher is an event no behaviour of the spec allows.",
-        note="Decided over protocol-structured classes, not over every byte value. Quick executes all sequences of length <= 2 "
-             "and a seeded sample of longer ones. Sessions run on in-memory connections and PS packets are fed to PsUnpacker "
-             "as PubSession.feedPacket does. Not driven: real UDP sockets, GB28181 TCP 2-byte framing, TLS, HTTP-API / HLS / "
-             "HTTP-FLV / HTTP-TS request parsing (the HLS / RTSP handlers are reached by C14), and lal as RTMP / RTSP / "
-             "HTTP-FLV client; those clauses of C13 are not decided by this check. RTMP chunk / AMF / FLV input surfaces "
-             "are covered by C08 / C18 / C04 / C05.",
+        note="Decided over protocol-structured classes, not every byte value: per surface every sequence core* . element to "
+             "depth 2-7; every field at a finite pool of extremes; truncation at every offset of RTP headers, SRs, PS "
+             "elements, WebSocket headers, HTTP status blocks, FLV headers and tags. Surfaces: RTP/RTCP of interleaved RTSP "
+             "publishers (with or without a key-frame-waiting subscriber, SDP clock-rate classes); UDP-transport publishers "
+             "with real loopback datagrams (tracks set up x payload type x SR SSRC); GB28181 PS elements and RTP sequencing "
+             "including fill-to-limit of the reorder list; RTSP commands and interleaved frames; SDP records; RTSP over "
+             "WebSocket frames; HTTP-API / HTTP-FLV / HTTP-TS / HLS requests on real net/http listeners (a recovered handler "
+             "panic counts as a violation); lal's RTMP pull/push, RTSP pull and HTTP-FLV pull clients against a scripted "
+             "loopback upstream. Quick always executes single elements and one-field SDP deviations; udp and psq run "
+             "exhaustively; the other surfaces are sampled by seed up to a cap. RTSP server sessions run on in-memory "
+             "connections, PS packets enter at PsUnpacker.FeedRtpPacket. Not decided: TLS, GB28181 TCP framing and sockets, "
+             "relay pull through the API end to end, hangs and CPU spins. RTMP chunk / AMF / FLV input surfaces are covered "
+             "by C08 / C18 / C04 / C05.",
         ref="6/C13"),
     "C20": dict(
         technique="explicit TLA+ spec Locks (the server's goroutine classes as processes over its mutexes, the capacity-1 exit "
@@ -190,18 +199,26 @@ CHECKS = {
              "targets does not exist in lal; the push write timeout is not driven.",
         ref="6/C17"),
     "C16": dict(
-        technique="TLA+ specs Lifecycle (pipeline ownership, hook stop, shutdown, group removal) and Fanout (caches / codec "
-                  "information / merge buffer across publisher epochs), TLC exhaustive + simulation, replayed into a real "
-                  "ServerManager with every output enabled and into a real Group + TLC trace validation",
-        text="TLC checks PipelineOwned / EmptyRemoved / NotifyPaired and CleanStart / RecordExact on the models; behaviours "
-             "with inputs of every kind ending by disconnect, kick or server shutdown are replayed into a ServerManager "
-             "with HLS, HTTP-TS, FLV and TS recording and a stream hook enabled: after every step TLC decides the set of "
-             "live pipeline components (none may survive the input, all are rebuilt for the next), that recordings parse "
-             "completely and the HLS playlist carries the end marker, that the hook is stopped exactly once per input, and "
-             "that goroutine / descriptor counts do not grow over 40-200 publish cycles; re-publish scenarios through "
-             "the Fanout model decide that nothing of a predecessor reaches consumers.",
-        note="The idle-timeout sweep and relay-push teardown are not bound to the code here; 'pending audio flushed' is "
-             "observed through the finalised TS record / HLS files only (C06 / C10 inspect their content).",
+        technique="TLA+ specs Lifecycle (pipeline ownership, hook stop, shutdown, group removal, idle sweep), Fanout (caches / "
+                  "codec information / merge buffer across publisher epochs) and Republish (EXTENDS RemuxOut: republish epochs "
+                  "on one surviving Group, fresh-stream acceptor per epoch for HTTP-TS / HLS / RTSP outputs); TLC exhaustive + "
+                  "simulation (+ model-level mutant and witness), replayed into a real ServerManager with every output enabled "
+                  "and into a real Group + TLC trace validation",
+        text="TLC checks PipelineOwned / EmptyRemoved / NotifyPaired / IdleDisconnected and CleanStart / RecordExact / "
+             "EpochComplete on the models; behaviours with inputs of every kind ending by disconnect, kick, idle sweep or "
+             "server shutdown are replayed into a ServerManager with HLS, HTTP-TS, FLV and TS recording and a stream hook "
+             "enabled: after every step TLC decides the set of live pipeline components (none may survive the input, all are "
+             "rebuilt for the next), that recordings parse completely and the HLS playlist carries the end marker, that the "
+             "hook is stopped exactly once per input, that an attached session which moved no byte between two idle checks "
+             "is disconnected by the second one (wire publishers = lal's RTMP client on loopback served by rtmp.Server's own "
+             "routine) and that goroutine / descriptor counts do not grow over 40-200 publish cycles; re-publish scenarios "
+             "decide that nothing of a predecessor reaches RTMP / HTTP-FLV consumers (Fanout) and that every epoch is a fresh "
+             "stream for HTTP-TS subscribers (staying, gap-joining, mid-epoch), HLS segments and RTSP session descriptions.",
+        note="Relay-push teardown with the publisher is decided in C17 (pn = 0 after the input leaves). 'Pending audio flushed' "
+             "is observed through the finalised TS record / HLS files only (C06 / C10 inspect their content). The idle sweep "
+             "is modelled without relay pull / push sessions and GB28181 inputs (their own timeout). KeyCuts / "
+             "JoinStartsInTime of Republish apply only to epochs without AAC; RTSP subscribers staying across a republish "
+             "and non-RTMP predecessors / successors are not covered.",
         ref="6/C16"),
     "C06": dict(
         technique="TLA+ acceptor RemuxOut (SameUnits, OnlyAllowedExtras, parameter sets in force, TsTime mod 2^33, Adts, RtpTime, "
